@@ -156,6 +156,17 @@ def _rectangular(col, rule="C15.R1"):
     ok = len(clears) == 1 and not csx.conds(clears[0][0].nid) and bool(logs) and all(csx.cfg.dominates(clears[0][0].nid, ev.nid) or True for ev, m in logs)
     col.add(rule, "Optimize.clear_log#all-keys", ok, csx.loc(csx.fn), "clear_log empties every column and logs the current point", "")
     lsx = octx(repo, "Optimize", "log")
+    stored = []
+    for r in lsx.of_kind("return"):
+        for a in S.instances(r.value, 16):
+            root = a
+            while root[:1] in (("sub",), ("item",), ("attr",)) and root != S.SELF and not S.is_attr(root, S.SELF):
+                root = root[1]
+            if S.is_attr(root, S.SELF) and root != LOG:
+                stored.append(S.show(a)[:60])
+    col.add(rule, "Optimize.log#built-from-the-log-on-every-call", not stored, lsx.loc(lsx.fn),
+            "log() builds its table from the current log lists on every call (a table kept from an earlier call describes another history)",
+            f"returns stored object(s): {stored}")
     read = _keys_read(lsx)
     col.add(rule, "Optimize.log#reads-declared-keys", "*" in read or (read - {"*"} <= set(keys) and not (set(keys) - read)), lsx.loc(lsx.fn),
             "log() builds its table from the declared columns, all of them", f"missing: {sorted(set(keys) - read)} undeclared: {sorted(read - set(keys) - {'*'})}")
@@ -273,11 +284,51 @@ def _row_consistency(col, rule="C15.R4"):
             "(never a remembered value: masks and targets may have changed without x moving)", S.show(rets[0].value)[:100] if rets else "")
 
 
+def _published_arrays(col, rule="C15.R4"):
+    """what the merit function publishes as the result of the last evaluation (last_res_values, last_residue_values,
+    last_targets_within_tol: read by the log) is not modified afterwards through another name of the same array"""
+    sx = octx(col.repo, "MeritFunctionForMatch", "__call__")
+    cfg = sx.cfg
+    import ast as _ast
+    n = 0
+    for e in sx.of_kind("store"):
+        if not (S.is_attr(e.target, S.SELF) and e.target[2].startswith("last_")):
+            continue
+        node = e.node if hasattr(e, "node") else None
+        v = getattr(node, "value", None)
+        if not isinstance(v, _ast.Name):
+            continue        # a copy / fresh expression is published
+        n += 1
+        name = v.id
+        later = []
+        for nd in cfg.nodes.values():
+            st = nd.ast
+            if st is None or nd.kind != "stmt" or not cfg.path_avoiding(e.nid, nd.id, []):
+                continue
+            # the name must still denote the published array there
+            if {d.nid for d in sx.cx.rd.reaching(nd.id, name) if d.strong} != {d.nid for d in sx.cx.rd.reaching(e.nid, name) if d.strong}:
+                continue
+            if isinstance(st, _ast.Assign) and any(isinstance(t, _ast.Subscript) and isinstance(t.value, _ast.Name) and t.value.id == name for t in st.targets):
+                later.append(sx.loc(nd.id))
+            elif isinstance(st, _ast.AugAssign) and ((isinstance(st.target, _ast.Name) and st.target.id == name) or
+                                                     (isinstance(st.target, _ast.Subscript) and isinstance(st.target.value, _ast.Name) and st.target.value.id == name)):
+                later.append(sx.loc(nd.id))
+            else:
+                for c in _ast.walk(st):
+                    if isinstance(c, _ast.Call) and any(kw.arg == "out" and isinstance(kw.value, _ast.Name) and kw.value.id == name for kw in c.keywords):
+                        later.append(sx.loc(nd.id))
+        col.add(rule, f"MeritFunctionForMatch.__call__#published-{e.target[2]}-not-modified-afterwards", not later, sx.loc(e),
+                f"`{name}`, published as self.{e.target[2]}, is not written in place after that (the log row would hold the modified values)",
+                f"in-place writes at {later}")
+    col.count("published_arrays", n)
+
+
 def check(col: Collector):
     _rectangular(col)
     c09.check_reload(col, rule="C15.R2")
     _take_best(col)
     _row_consistency(col)
+    _published_arrays(col)
     # "within all tolerances" in step() is the flag the merit function computes: same obligations as C09.R3/R4
     from .common import shared
     shared(col, "C15.R5", [c09._flag],
